@@ -225,6 +225,10 @@ pub struct StackCtx {
     pub calm: Rc<Cell<bool>>,
     pub probes_done: Rc<Cell<bool>>,
     pub group_fabric: Option<GroupFabric>,
+    /// Sessions no workload uses: they are removed while the workloads run
+    pub victims: Vec<Planted>,
+    /// (time in ms, victim index): removals at this node
+    pub closes: Vec<(u64, usize)>,
 }
 
 pub const PROBE_WL_BASE: u16 = 9000;
@@ -504,6 +508,33 @@ async fn initiator_task(
     active.set(active.get() - 1);
 }
 
+/// Removes, at the scripted times, a session of this node which carries nothing (the way an
+/// eviction for a new handshake does), while the node's other sessions and exchanges are busy.
+/// (A CloseSession status report from the peer would be the other way to lose a session, but
+/// rs-matter refuses one that arrives on an exchange of its own - "No valid exchange found" -
+/// which is how every implementation sends it.)
+async fn closer_task(matter: &Matter<'_>, node: usize, victims: &[Planted], closes: &[(u64, usize)]) {
+    let mut elapsed = 0u64;
+    for (at_ms, v) in closes {
+        if *at_ms > elapsed {
+            Timer::after(Duration::from_millis(*at_ms - elapsed)).await;
+            elapsed = *at_ms;
+        }
+        let p = &victims[*v];
+        let my_sid = if p.a == node { p.a_local_sid } else { p.b_local_sid };
+        let sess = matter
+            .verif_snapshot()
+            .sessions
+            .iter()
+            .find(|s| s.local_sess_id == my_sid && !s.reserved)
+            .map(|s| s.id);
+        if let Some(id) = sess {
+            let removed = matter.verif_remove_session(id);
+            kernel::trace("session_removed", node as u64, *v as u64, &[removed as u8]);
+        }
+    }
+}
+
 async fn probe_task(
     app: &AppCtx,
     matter: &Matter<'_>,
@@ -699,7 +730,7 @@ pub fn stack_root(ctx: StackCtx, shared: Rc<NodeShared>) -> RootFut {
                 }
             }
         });
-        for p in ctx.planted.iter().filter(|p| p.a == ctx.node || p.b == ctx.node) {
+        for p in ctx.planted.iter().chain(ctx.victims.iter()).filter(|p| p.a == ctx.node || p.b == ctx.node) {
             plant(&matter, &crypto, ctx.node, p).expect("plant session");
         }
 
@@ -742,6 +773,10 @@ pub fn stack_root(ctx: StackCtx, shared: Rc<NodeShared>) -> RootFut {
                 "initiator",
                 initiator_task(&app, &matter, &crypto, &ctx.planted, list, &ctx.active),
             ));
+        }
+
+        if !ctx.closes.is_empty() {
+            tasks.push(TaskDef::once("closer", closer_task(&matter, ctx.node, &ctx.victims, &ctx.closes)));
         }
 
         if ctx.node == 0 {
